@@ -36,7 +36,7 @@ def seqOk (t : Table) (fs : FlagMap) (st : StateId) (ab : Ab) (loops : Bool) (s 
   | some ab' =>
     match s.trans with
     | none => if loops then (fs st).2.le ab' else ab'.P
-    | some (.reconsume tg) => ab'.P && (fs tg).1.le ab'
+    | some (.reconsume tg) => ab'.P && !(fs tg).1.P && (fs tg).1.le ab'
     | tr => (transTargets t st tr).all fun tg => (fs tg).1.le ab'
 
 def bodyOk (t : Table) (fs : FlagMap) (st : StateId) (ab : Ab) (loops : Bool) : Body → Bool
